@@ -129,3 +129,253 @@ pub fn check_space_error(it: &Interp, ctx: &Ctx, info: &StepInfo) -> Option<Fail
         _ => None,
     }
 }
+
+// ---------------------------------------------------------------------------------------------
+// C05 fill / release / refill cycles: "filling a volume, freeing, and filling again accepts the
+// same number of bytes, and can be repeated".
+
+use crate::engines::fsx;
+use crate::interp::{Case, Opts};
+use crate::ops::{LenSel, NameSel, Op, Step};
+use crate::runner::Acc;
+use proptest::prelude::*;
+use serde::{Deserialize, Serialize};
+
+#[derive(Clone, Debug, Serialize, Deserialize)]
+pub struct Cycle {
+    /// pool indices of the 1-2 files filled in this cycle (written alternately)
+    pub names: Vec<u8>,
+    /// write lengths, used round-robin until every file reports out-of-space
+    pub lens: Vec<LenSel>,
+    pub seed: u32,
+    /// 0: delete the files, 1: truncate them (open with Truncate, close), 2: delete, files re-created next cycle
+    pub release: u8,
+    pub surf: u8,
+    pub d: u16,
+}
+
+#[derive(Clone, Debug, Serialize, Deserialize)]
+pub struct FillCase {
+    /// disk, limits, clock; `steps` is ignored
+    pub base: Case,
+    /// free clusters left on every volume by the formatter
+    pub free: u16,
+    pub cycles: Vec<Cycle>,
+}
+
+pub fn fill_strategy() -> BoxedStrategy<FillCase> {
+    let cfg = fsx::cfg_for("C05");
+    let big = prop_oneof![
+        3 => (60000u16..=65535).prop_map(LenSel::Frac),
+        2 => (any::<u8>(), any::<i8>()).prop_map(|(k, d)| LenSel::MultiCluster(k, d)),
+    ];
+    let any_len = prop_oneof![
+        3 => (30000u16..=65535).prop_map(LenSel::Frac),
+        2 => (any::<u8>(), any::<i8>()).prop_map(|(k, d)| LenSel::MultiCluster(k, d)),
+        2 => any::<i8>().prop_map(LenSel::AroundCluster),
+        1 => any::<u8>().prop_map(LenSel::Blocks),
+        1 => any::<u16>().prop_map(LenSel::Small),
+        1 => any::<i8>().prop_map(LenSel::Around512),
+    ];
+    let cycle = (prop::collection::vec(0u8..8, 1..3), big, prop::collection::vec(any_len, 0..3), any::<u32>(), 0u8..3, 0u8..3, any::<u16>())
+        .prop_map(|(names, b, mut lens, seed, release, surf, d)| {
+            lens.insert(0, b);
+            Cycle { names, lens, seed, release, surf, d }
+        });
+    let free = prop_oneof![2 => 1u16..6, 3 => 6u16..40, 2 => 40u16..301];
+    (fsx::strategy(&cfg), free, prop::collection::vec(cycle, 2..6))
+        .prop_map(|(mut base, free, cycles)| {
+            base.steps.clear();
+            FillCase { base, free, cycles }
+        })
+        .boxed()
+}
+
+fn sel(j: usize, n: usize) -> u16 {
+    // smallest raw with (raw * n) >> 16 == j
+    (((j as u64) << 16).div_ceil(n as u64)).min(65535) as u16
+}
+
+pub fn run_fill_case(fc: &FillCase, acc: &mut Acc, verbose: bool) -> Result<(), Failure> {
+    let mut case = fc.base.clone();
+    case.steps.clear();
+    for v in case.disk.vols.iter_mut().flatten() {
+        v.usable.free_after = Some(fc.free);
+    }
+    let cfg = fsx::cfg_for("C05");
+    let mut it = Interp::new(&case, Opts { track_space: true, ..Opts::default() });
+    let ctx = fsx::make_ctx(&cfg, &it);
+    let mut idx = 0usize;
+    // Ok(Some(info)) = proceed, Ok(None) = case abandoned (out-of-scope divergence), Err = violation
+    let mut step = |it: &mut Interp, op: Op, surf: u8| -> Result<Option<StepInfo>, Failure> {
+        let st = Step { op, surf, tick: 1 };
+        let info = it.step(idx, &st);
+        idx += 1;
+        if verbose {
+            println!("{}", it.trace.last().cloned().unwrap_or_default());
+        }
+        if let Some(p) = &info.panicked {
+            return Err(fail("panic", format!("step {} ({}) panicked: {}", idx - 1, info.kind, p)));
+        }
+        if let Some(d) = it.divs.iter().find(|d| d.prop == "C05") {
+            return Err(fail(d.code, format!("step {}: {}", d.step, d.detail)));
+        }
+        if !it.divs.is_empty() {
+            return Ok(None);
+        }
+        if let Some(f) = check_space_error(it, &ctx, &info) {
+            return Err(f);
+        }
+        Ok(Some(info))
+    };
+    macro_rules! go {
+        ($op:expr, $surf:expr) => {
+            match step(&mut it, $op, $surf)? {
+                Some(i) => i,
+                None => {
+                    acc.desync += 1;
+                    acc.class("fill:abandoned-out-of-scope-divergence");
+                    return Ok(());
+                }
+            }
+        };
+    }
+    for st in crate::ops::prologue() {
+        let _ = go!(st.op, st.surf);
+    }
+    let mut reached = 0u32;
+    let mut per_cycle: Vec<(u64, u32)> = Vec::new();
+    for (k, cy) in fc.cycles.iter().enumerate() {
+        let mut names: Vec<u8> = cy.names.clone();
+        names.dedup();
+        if names.len() == 2 && names[0] % 21 == names[1] % 21 {
+            names.truncate(1);
+        }
+        if !it.files.is_empty() {
+            break;
+        }
+        let mut slot = None;
+        let mut opened = 0usize;
+        for nm in &names {
+            let info = go!(Op::Open { d: cy.d, name: NameSel::Pool(*nm), mode: 4 }, cy.surf);
+            if info.skipped || !info.ok {
+                break;
+            }
+            slot = info.slot;
+            opened += 1;
+        }
+        if opened != names.len() || opened == 0 {
+            // the name is a directory / read-only file, the FAT16 root is full, ...: nothing to fill
+            acc.class("fill:open-refused");
+            for _ in 0..it.files.len() {
+                let _ = go!(Op::Close { f: 0, drop_only: false }, 0);
+            }
+            continue;
+        }
+        let slot = slot.unwrap();
+        let vt = ctx.vols.iter().find(|v| v.slot == slot).unwrap();
+        let cb = vt.lay.cluster_bytes() as u64;
+        let held = |it: &Interp| -> u64 {
+            it.files
+                .iter()
+                .map(|f| match it.api().file_state(f.h) {
+                    Some(st) if st.first >= 2 => it.disk.with_img(|img| fsck::chain(&FatView::new(img, &vt.lay), st.first).0.len() as u64),
+                    _ => 0,
+                })
+                .sum()
+        };
+        let free_open = it.free_count(slot).unwrap_or(0) as u64;
+        let held_open = held(&it);
+        let n = it.files.len();
+        let mut full = vec![false; n];
+        let mut w = 0usize;
+        'fill: while full.iter().any(|f| !*f) && w < 1500 {
+            for j in 0..n {
+                if full[j] {
+                    continue;
+                }
+                let info = go!(Op::Write { f: sel(j, n), len: cy.lens[w % cy.lens.len()].clone(), seed: cy.seed.wrapping_add(w as u32) }, cy.surf);
+                w += 1;
+                if info.space_error {
+                    full[j] = true;
+                } else if !info.ok {
+                    break 'fill;
+                }
+            }
+        }
+        if full.iter().any(|f| !*f) {
+            acc.class("fill:full-not-reached");
+            break;
+        }
+        reached += 1;
+        let total: u64 = it.files.iter().map(|f| it.nodes[f.node].data.len() as u64).sum();
+        let expected = (free_open + held_open) * cb;
+        if total != expected {
+            return Err(fail(
+                "fill-total",
+                format!(
+                    "cycle {}: the volume accepted {} bytes until it reported out-of-space, but {} free + {} held clusters of {} bytes were available = {} (difference {} bytes)",
+                    k, total, free_open, held_open, cb, expected, expected as i64 - total as i64
+                ),
+            ));
+        }
+        let left = it.free_count(slot).unwrap_or(0);
+        if left != 0 {
+            return Err(fail("space-left-after-disk-full", format!("cycle {}: every file reported out-of-space but {} clusters are free", k, left)));
+        }
+        per_cycle.push((total, n as u32));
+        // everything accepted reads back
+        let _ = go!(Op::CheckAll, 0);
+        for _ in 0..n {
+            let _ = go!(Op::Close { f: 0, drop_only: false }, cy.surf);
+        }
+        if let Some(f) = fsx::check_accounting(&it, &ctx) {
+            return Err(f);
+        }
+        // release
+        let mut still_held = 0u64;
+        for nm in &names {
+            if cy.release % 3 == 1 {
+                let info = go!(Op::Open { d: cy.d, name: NameSel::Pool(*nm), mode: 2 }, cy.surf);
+                if info.ok {
+                    still_held += held(&it);
+                    let _ = go!(Op::Close { f: 0, drop_only: false }, cy.surf);
+                }
+            } else {
+                let _ = go!(Op::Delete { d: cy.d, name: NameSel::Pool(*nm) }, cy.surf);
+            }
+        }
+        if let Some(f) = fsx::check_accounting(&it, &ctx) {
+            return Err(f);
+        }
+        let free_now = it.free_count(slot).unwrap_or(0) as u64;
+        if free_now + still_held != free_open + held_open {
+            return Err(fail(
+                "release-did-not-return-everything",
+                format!(
+                    "cycle {}: before filling {} clusters were free (+{} held by the open files); after {} {} are free (+{} still held)",
+                    k,
+                    free_open,
+                    held_open,
+                    if cy.release % 3 == 1 { "truncating" } else { "deleting" },
+                    free_now,
+                    still_held
+                ),
+            ));
+        }
+        acc.class(match cy.release % 3 {
+            1 => "fill:released-by-truncate",
+            _ => "fill:released-by-delete",
+        });
+    }
+    acc.ops += it.stats.ops;
+    acc.class_n("fill:cycles-reaching-full", reached as u64);
+    if reached >= 2 {
+        acc.class("fill:cases-with-2+-full-cycles");
+        acc.shape(&("fill", fsx::geometry_class(&case), fc.free, per_cycle.clone(), fc.cycles.iter().map(|c| (c.release % 3, c.names.len())).collect::<Vec<_>>()));
+        if acc.samples.len() < 2 {
+            acc.sample(serde_json::json!({"engine": "c05-fill", "geometry": fsx::geometry_class(&case), "free_clusters": fc.free, "bytes_accepted_per_cycle": per_cycle.iter().map(|p| p.0).collect::<Vec<_>>()}));
+        }
+    }
+    Ok(())
+}
